@@ -123,9 +123,15 @@ impl<T: FromTerm, const N: usize> FromTerm for [T; N] {
     }
 }
 /// a borrowed slice: offset into the input buffer, elements
+/// `!` when the pointer is not a multiple of the native alignment of the data it points to
+fn misaligned<T>(p: *const T) -> &'static str {
+    if (p as usize) % core::mem::align_of::<T>() != 0 { "!" } else { "" }
+}
+
 impl<T: Show> Show for &[T] {
     fn show(&self, o: &mut String) {
         o.push('@');
+        o.push_str(misaligned(self.as_ptr()));
         o.push_str(&off_of(self.as_ptr() as usize));
         show_items(self.iter(), o);
     }
@@ -134,6 +140,7 @@ impl<T: Show> Show for &[T] {
 impl<T: Show> Show for &T {
     fn show(&self, o: &mut String) {
         o.push_str("&@");
+        o.push_str(misaligned(*self as *const T));
         o.push_str(&off_of(*self as *const T as usize));
         (**self).show(o);
     }
